@@ -506,7 +506,7 @@ func pcacheMergePrecedence(c *Ctx, rule string) {
 			var upd, old *X
 			for _, a := range v.Args {
 				if b, ok := Match(Or(Extract("0", BindP("lk", Op("lookup", "", Bind("map")))), BindP("lk", Op("lookup", "", Bind("map")))), a); ok {
-					if isFreshMap(c, b["map"]) {
+					if isFreshMap(c, b["map"]) && holdsPendingUpdates(c, b["map"], 0) {
 						upd = b["lk"]
 					} else if isOldMain(b["map"]) {
 						old = b["lk"]
@@ -571,7 +571,7 @@ func pcacheLoadUnderToken(c *Ctx, rule string) {
 			})
 		}
 	}
-	c.Floor(rule, 3)
+	c.Floor(rule, 2) // (the writers may share one publishing routine that loads the snapshot)
 	// the snapshot a writer reads from is one it loaded itself (under the token, by the rule above) — not one handed
 	// in by a caller that loaded it before the token was taken
 	writers := map[*ssa.Function]bool{}
@@ -729,4 +729,86 @@ func mutatingHelperSites(c *Ctx, fn *ssa.Function) []ssa.CallInstruction {
 		return nil
 	}
 	return sites
+}
+
+// holdsPendingUpdates: the fresh map x carries over the update map of the
+// loaded snapshot — it is filled by ranging over (or maps.Copy of) the
+// snapshot's u field, in the function that makes it, in a copying helper that
+// is given that field, or at every call site when x is a parameter. (A fresh
+// map that holds only this round's changes is not the pending set: looking
+// providers up in it when the main map is rebuilt drops every earlier update.)
+func holdsPendingUpdates(c *Ctx, x *X, depth int) bool {
+	if depth > 2 {
+		return false
+	}
+	isU := func(y *X) bool {
+		y = strip(y)
+		return y != nil && y.Op == "field" && y.Name == "u"
+	}
+	copiedInto := func(mk ssa.Value, src func(*X) bool) bool {
+		found := false
+		if mk.Referrers() == nil {
+			return false
+		}
+		for _, r := range *mk.Referrers() {
+			switch r := r.(type) {
+			case *ssa.MapUpdate:
+				if r.Map != mk {
+					continue
+				}
+				// the value (or key) comes from a range over the source
+				for _, v := range []ssa.Value{r.Key, r.Value} {
+					c.E(v).Find(func(y *X) bool {
+						if y.Op == "range" && len(y.Args) > 0 && src(y.Args[0]) {
+							found = true
+						}
+						return false
+					})
+				}
+			case ssa.CallInstruction:
+				if sc := r.Common().StaticCallee(); sc != nil && sc.Object() != nil && sc.Object().Pkg() != nil && sc.Object().Pkg().Path() == "maps" && sc.Object().Name() == "Copy" {
+					if len(r.Common().Args) == 2 && r.Common().Args[0] == mk && src(c.E(r.Common().Args[1])) {
+						found = true
+					}
+				}
+			}
+		}
+		return found
+	}
+	sx := strip(x)
+	if mk, ok := sx.V.(*ssa.MakeMap); ok && sx.Op == "makemap" {
+		return copiedInto(mk, isU)
+	}
+	if call, ok := sx.V.(*ssa.Call); ok && sx.Op != "param" {
+		callee := call.Call.StaticCallee()
+		if callee == nil || !returnsFreshMap(c, callee, 0) {
+			return false
+		}
+		// the helper copies one of its parameters, which is handed the u field
+		for i, p := range callee.Params {
+			if i >= len(call.Call.Args) || !isU(c.E(call.Call.Args[i])) {
+				continue
+			}
+			for _, b := range callee.Blocks {
+				if ret, ok := b.Instrs[len(b.Instrs)-1].(*ssa.Return); ok && len(ret.Results) > 0 {
+					if mk, ok := unwrapV(ret.Results[0]).(*ssa.MakeMap); ok {
+						if copiedInto(mk, func(y *X) bool { y = strip(y); return y != nil && y.V == ssa.Value(p) }) {
+							return true
+						}
+					}
+				}
+			}
+		}
+		return false
+	}
+	vals, _ := c.ActualsAt(x)
+	if len(vals) == 0 {
+		return false
+	}
+	for _, v := range vals {
+		if !holdsPendingUpdates(c, v, depth+1) {
+			return false
+		}
+	}
+	return true
 }
